@@ -39,6 +39,12 @@ package c16
 //     responsible caller and sends the player to s0 with ConnectWithIndication, which must
 //     work. With ConnectWithIndication (the proxy's own handling) no such latitude exists.
 //   - The disconnect reason is only compared for the initial join (kick in the login phase).
+//   - A backend that stalls its JoinGame beyond the request's context is, for a <764 client,
+//     an ordinary timed-out attempt (previous server untouched: strict clause c); for a
+//     >=764 client the previous server is already gone when the login was accepted, so it
+//     is judged like a kick in the configuration phase. In both cases the resting state is
+//     only looked at after the stalled backend has gone on (JoinGame sent, or its
+//     connection found closed by the proxy).
 
 import (
 	"fmt"
@@ -520,6 +526,12 @@ func Judge(o *Observation) []Finding {
 		case !hasFallback && !al.ClientGone && !healthy(sc.EffMode(sc.Initial, 0)) && !kickish(sc.EffMode(sc.Initial, 0)):
 			fs = append(fs, Finding{Sig: "initial:no-server-no-fallback-but-not-disconnected", Round: -1,
 				What: fmt.Sprintf("first server %s (%s) failed, try list %v has no other healthy server, but the client was not disconnected: %s", sc.Initial, sc.EffMode(sc.Initial, 0), sc.Try, describe(al))})
+		case !al.ClientGone && al.Cur == sc.Initial && (sc.EffMode(sc.Initial, 0) == mStallJoin || sc.EffMode(sc.Initial, 0) == mStallJoinCfg):
+			// the initial attempt ran into the proxy's connection timeout (the backend stalled
+			// until its connection was closed or far beyond that timeout): a JoinGame that
+			// arrives afterwards must not make that server current
+			fs = append(fs, Finding{Sig: "initial:timed-out-first-server-became-current", Round: -1,
+				What: fmt.Sprintf("first server %s stalled its JoinGame until after the proxy's connection timeout (%d ms); the attempt had failed, yet the player rests on it: %s", sc.Initial, sc.ConnTimeoutMs, describe(al))})
 		case !hasFallback && al.ClientGone && sc.EffMode(sc.Initial, 0) == mKickLogin:
 			want := "c16-kick-" + sc.Initial
 			if !strings.Contains(al.KickText, want) {
